@@ -202,6 +202,29 @@ def do_loadfault(env, op, pending):
         im2 = type(im)()
         im2.ParseFromString(raw.replace(ub, ua))
         im = im2
+    elif f == "unknown-enum-at":
+        s = op["site"]
+        if s["site"] == "enum.edge":
+            holder, _ = _site_fields(env, mapper, im, dict(s, site="edge.src"))
+            holder.label.type = 9999
+        else:
+            target = env.uuid(s["a"]).bytes
+            done = False
+            for m in im.modules:
+                if m.uuid == target and s["b"] in ("isa", "file_format", "byte_order"):
+                    setattr(m, s["b"], 9999)
+                    done = True
+                for x in m.sections:
+                    if x.uuid == target and s["b"] == "section_flags":
+                        x.section_flags.append(9999)
+                        done = True
+                    for v in x.byte_intervals:
+                        for b in v.blocks:
+                            if b.HasField("code") and b.code.uuid == target and s["b"] == "decode_mode":
+                                b.code.decode_mode = 9999
+                                done = True
+            if not done:
+                raise MachineryFailure("enum site not found in the message: %r" % (s,))
     elif f == "dup-uuid-same-kind":
         mods = list(im.modules)
         secs = [x for m in mods for x in m.sections]
